@@ -158,11 +158,29 @@ def obligations(prop):
     return allnames, done, report, bad
 
 
-def forbidden_scan():
-    """No Admitted/admit/Axiom/... anywhere in the development."""
-    pat = re.compile(r"\b(Admitted|admit|Axiom|Parameter|Conjecture|Admit Obligations|bypass_check|Unset Guard Checking|Unset Positivity Checking|Unset Universe Checking)\b")
+def import_cone(prop):
+    """.v files of the development the property's theorems depend on (transitively)."""
+    cfg = REGISTRY[prop]
+    todo = [os.path.join(COQ, rel) for rel in cfg["properties_files"]]
+    todo += glob.glob(os.path.join(COQ, cfg["coq_dir"], "*.v"))
+    seen = set()
+    while todo:
+        f = todo.pop()
+        if f in seen or not os.path.exists(f):
+            continue
+        seen.add(f)
+        txt = open(f).read()
+        for m in re.finditer(r"From\s+Verif\s+Require\s+(?:Import|Export)\s+([^.]*(?:\.[A-Za-z0-9_]+)*)\s*\.", txt):
+            for mod in m.group(1).split():
+                todo.append(os.path.join(COQ, mod.replace(".", "/") + ".v"))
+    return sorted(seen)
+
+
+def forbidden_scan(prop):
+    """No Admitted/admit/Axiom/... anywhere in the property's cone."""
+    pat = re.compile(r"\b(Admitted|admit|Axiom|Axioms|Parameter|Parameters|Conjecture|Admit Obligations|bypass_check|Unset Guard Checking|Unset Positivity Checking|Unset Universe Checking)\b")
     hits = []
-    for f in glob.glob(os.path.join(COQ, "*", "*.v")):
+    for f in import_cone(prop):
         txt = re.sub(r"\(\*.*?\*\)", "", open(f).read(), flags=re.S)
         for i, line in enumerate(txt.splitlines(), 1):
             if pat.search(line):
@@ -231,7 +249,7 @@ def main(argv):
     # 1. proof obligations
     coq_ok, coq_log = ensure_coq()
     names, done, areport, bad_axioms = obligations(prop)
-    forb = forbidden_scan()
+    forb = forbidden_scan(prop)
     proof_broken = []
     if len(done) < len(names):
         proof_broken = [n for n in names if n not in done]
